@@ -11,6 +11,8 @@ SPEC = {
     'ThematicBreak': r' {0,3}(?:-[ \t]*(?:-[ \t]*){2,}|_[ \t]*(?:_[ \t]*){2,}|\*[ \t]*(?:\*[ \t]*){2,})\n',
     # 4.5  at least three backticks (info string without backticks) or tildes
     'CodeFence': r' {0,3}(?:`{3,}[^`\n]*|~{3,}[^\n]*)\n',
+    # the part of 4.5 that CodeFence.pattern alone decides (info string unconstrained)
+    'CodeFenceOpen': r' {0,3}(?:`{3,}|~{3,})[^\n]*\n',
     # 5.2  bullet or 1-9 digits + . or ), followed by space/tab or end of line
     'List': r' {0,3}(?:[-+*]|[0-9]{1,9}[.)])(?:[ \t]|\n)',
     'ListItem': r' {0,3}(?:[-+*]|[0-9]{1,9}[.)])(?:[ \t]|\n)',
